@@ -235,6 +235,9 @@ Record deposit := mkDeposit {
 
 Definition header_root (h : bytes) : bytes := firstn 32 (skipn 36 h).
 
+Definition find_header (headers : list (N * bytes)) (h : N) : bytes :=
+  default [] (snd <$> find (fun '(h', _) => h' =? h) headers).
+
 Definition verify_deposit (s : bstate) (headers : list (N * bytes)) (d : deposit) : res deprcpt :=
   match dp_key d with
   | None => Err                         (* EncodePublicKey(nil key) is not registered *)
@@ -244,7 +247,7 @@ Definition verify_deposit (s : bstate) (headers : list (N * bytes)) (d : deposit
     | None => Err
     | Some bh =>
       if (dp_txindex d =? 0) && (b_tip s <? dp_height d + c_CoinbaseMaturity) then Err else
-      let hdr := default [] (snd <$> find (fun '(h, _) => h =? dp_height d) headers) in
+      let hdr := find_header headers (dp_height d) in
       if negb (N.of_nat (length hdr) =? c_RawBtcHeaderSize) then Err else
       if negb (beq_bytes bh (H2 hdr)) then Err else
       match dp_parsed d with
